@@ -55,7 +55,7 @@ def judge_iban_accept(mon: Mon, text: str, table, tag: str):
     exp = R.expect_iban(text, table)
     o_ctor, o_unv, o_val, o_isv = iban_three_ways(text)
     mon.ev()
-    w = {"text": esc(text), "family": tag}
+    w = {"text": esc(text), "family": tag, "nonascii": nonascii_kind(text)}
     mon.tally(f"oracle_{exp.verdict}")
     if not o_unv.ok:
         mon.viol("unvalidated_constructor_raised", w, "IBAN(text, allow_invalid=True) returns", o_unv.brief())
@@ -65,7 +65,7 @@ def judge_iban_accept(mon: Mon, text: str, table, tag: str):
         mon.distinct(("iban", exp.norm, tag.split(":")[0]))
         if acc and exp.verdict == R.REJECT:
             mon.viol(
-                "false_accept:" + "+".join(sorted(exp.defects)) + ":" + nonascii_kind(text),
+                "false_accept:" + "+".join(sorted(exp.defects)),
                 w, {"verdict": "REJECT", "defects": sorted(exp.defects)}, o_ctor.brief(),
             )
         elif not acc and exp.verdict == R.ACCEPT:
@@ -82,7 +82,7 @@ def judge_iban_accept(mon: Mon, text: str, table, tag: str):
     if v_val != acc:
         mon.viol("entry_points_disagree:ctor_vs_validate", w, o_ctor.brief(), o_val.brief())
     if not o_isv.ok:
-        mon.viol("is_valid_raised:" + o_isv.exc_name + ":" + nonascii_kind(text), w, "True/False", o_isv.brief())
+        mon.viol("is_valid_raised:" + o_isv.exc_name, w, "True/False", o_isv.brief())
     elif bool(o_isv.value) != acc:
         mon.viol("entry_points_disagree:ctor_vs_is_valid", w, o_ctor.brief(), o_isv.brief())
     return exp
@@ -94,16 +94,16 @@ def judge_iban_total(mon: Mon, text: str, table, tag: str, validate_bban: bool =
     exp = R.expect_iban(text, table)
     o_ctor, o_unv, o_val, o_isv = iban_three_ways(text, validate_bban)
     mon.ev()
-    w = {"text": esc(text), "family": tag, "validate_bban": validate_bban}
     k = nonascii_kind(text)
+    w = {"text": esc(text), "family": tag, "validate_bban": validate_bban, "nonascii": k}
     if not o_unv.ok:
         mon.viol("unvalidated_constructor_raised:" + o_unv.exc_name, w, "returns", o_unv.brief())
         return exp
     for name, o in (("ctor", o_ctor), ("validate", o_val)):
         if not o.ok and not is_lib_exc(o.exc):
-            mon.viol(f"escape:{name}:{o.exc_name}:{k}", w, "only SchwiftyException subclasses", o.brief())
+            mon.viol(f"escape:{name}:{o.exc_name}", w, "only SchwiftyException subclasses", o.brief())
     if not o_isv.ok:
-        mon.viol(f"is_valid_raised:{o_isv.exc_name}:{k}", w, "True/False", o_isv.brief())
+        mon.viol(f"is_valid_raised:{o_isv.exc_name}", w, "True/False", o_isv.brief())
     # ctor (with flag) <=> validate (with flag); ctor without flag <=> is_valid
     if o_ctor.ok != o_val.ok:
         mon.viol("ctor_vs_validate_disagree", w, o_ctor.brief(), o_val.brief())
@@ -154,8 +154,8 @@ def judge_bic(mon: Mon, text: str, strict: bool, tag: str, prop_mode: str = "acc
     exp = R.expect_bic(text, strict)
     o_ctor, o_unv, o_val, o_isv = bic_ways(text, strict)
     mon.ev()
-    w = {"text": esc(text), "strict": strict, "family": tag}
     k = nonascii_kind(text)
+    w = {"text": esc(text), "strict": strict, "family": tag, "nonascii": k}
     if not o_unv.ok:
         mon.viol("unvalidated_constructor_raised:" + o_unv.exc_name, w, "returns", o_unv.brief())
         return exp
@@ -167,7 +167,7 @@ def judge_bic(mon: Mon, text: str, strict: bool, tag: str, prop_mode: str = "acc
             mon.distinct(("bic", exp.norm, strict))
             if acc and exp.verdict == R.REJECT:
                 pos = "tail" if (len(exp.norm) == 11 and not R.is_ascii_alnum_upper(exp.norm[8:]) and R.is_ascii_alnum_upper(exp.norm[:8])) else "body"
-                mon.viol(f"false_accept:{'+'.join(sorted(exp.defects))}:{pos}:{k}", w, {"verdict": "REJECT", "defects": sorted(exp.defects)}, o_ctor.brief())
+                mon.viol(f"false_accept:{'+'.join(sorted(exp.defects))}:{pos}", w, {"verdict": "REJECT", "defects": sorted(exp.defects)}, o_ctor.brief())
             elif not acc and exp.verdict == R.ACCEPT:
                 mon.viol("false_reject:" + o_ctor.exc_name, w, "ACCEPT", o_ctor.brief())
         if acc:
@@ -177,7 +177,7 @@ def judge_bic(mon: Mon, text: str, strict: bool, tag: str, prop_mode: str = "acc
         if o_val.ok != acc:
             mon.viol("entry_points_disagree:ctor_vs_validate", w, o_ctor.brief(), o_val.brief())
         if not o_isv.ok:
-            mon.viol(f"is_valid_raised:{o_isv.exc_name}:{k}", w, "True/False", o_isv.brief())
+            mon.viol(f"is_valid_raised:{o_isv.exc_name}", w, "True/False", o_isv.brief())
         elif not strict and bool(o_isv.value) != acc:
             mon.viol("entry_points_disagree:ctor_vs_is_valid", w, o_ctor.brief(), o_isv.brief())
         elif strict and acc and not o_isv.value:
@@ -186,9 +186,9 @@ def judge_bic(mon: Mon, text: str, strict: bool, tag: str, prop_mode: str = "acc
         mon.distinct(("bic5", exp.norm, strict))
         for name, o in (("ctor", o_ctor), ("validate", o_val)):
             if not o.ok and not is_lib_exc(o.exc):
-                mon.viol(f"escape:bic_{name}:{o.exc_name}:{k}", w, "only SchwiftyException subclasses", o.brief())
+                mon.viol(f"escape:bic_{name}:{o.exc_name}", w, "only SchwiftyException subclasses", o.brief())
         if not o_isv.ok:
-            mon.viol(f"is_valid_raised:bic:{o_isv.exc_name}:{k}", w, "True/False", o_isv.brief())
+            mon.viol(f"is_valid_raised:bic:{o_isv.exc_name}", w, "True/False", o_isv.brief())
         if o_ctor.ok != o_val.ok:
             mon.viol("bic_ctor_vs_validate_disagree", w, o_ctor.brief(), o_val.brief())
         if not strict and o_isv.ok and bool(o_isv.value) != o_ctor.ok:
